@@ -245,10 +245,13 @@ def gen_C03(rng, tier):
         qs = qs + qs[:2]          # unsorted, repeated
         reads = [C.read(0, "values"), C.read(0, "deltas"), C.read(0, "frame")]
         rng.shuffle(reads)
-        prog = [leaf_stmt(0, f, c)] + reads[: rng.randint(0, 3)] + [
-            C.query(0, "limit", side="left", xs=qs), C.query(0, "limit", side="right", xs=qs),
-            C.query(0, "sample", xs=qs), C.query(0, "nsteps"), C.query(0, "points"), C.query(0, "closed"),
-            C.read(0, "values"), C.read(0, "deltas"), C.read(0, "frame")]
+        prog = [leaf_stmt(0, f, c)] + reads[: rng.randint(0, 3)]
+        r = 0
+        if rng.random() < 0.4:      # the function as the result of earlier operations (views must still agree)
+            r, _ = derive(rng, prog, 0, 10)
+        prog += [C.query(r, "limit", side="left", xs=qs), C.query(r, "limit", side="right", xs=qs),
+                 C.query(r, "sample", xs=qs), C.query(r, "nsteps"), C.query(r, "points"), C.query(r, "closed"),
+                 C.read(r, "values"), C.read(r, "deltas"), C.read(r, "frame")]
         dom = "float"
         cases.append(mk(f"C03/{'small' if k < n else 'rand'}/{k}", prog, flav(rng, has_nan(f), dom), tags=["views"]))
     return cases
@@ -516,6 +519,11 @@ def rand_program(rng, n_ops, closed_same=0.95, kinds=None, n_leaves=None, reads=
         regs.append(i)
         anynan = anynan or has_nan(lf)
     nxt = n_leaves
+    for i in range(n_leaves):       # provenance: leaves as results of earlier operations, with reads interposed
+        if rng.random() < 0.4:
+            r, nxt = derive(rng, prog, i, nxt)
+            if r != i:
+                regs.append(r)
     pts_pool = [F(k, 2) for k in range(-2, 14)]
     for _ in range(n_ops):
         k = rng.choice(kinds)
@@ -771,12 +779,14 @@ def gen_C14(rng, tier):
             base = ([], [rng.choice([F(0), F(1), F(2)])])
         elif r0 < 0.75:
             base = ([F(0), F(4)], [F(0), rng.choice([F(1), F(2)]), F(0)])
-        else:
+        elif r0 < 0.85:
             base = rand_leaf_pow2(rng, nan=0)
+        else:               # receivers with undefined regions (layering goes through addition there)
+            base = ([F(0), F(1), F(2), F(4)], [rng.choice([F(0), None]), F(1), None, rng.choice([F(2), F(3)]), F(0)])
         prog = [leaf_stmt(0, base, c)]
         if r0 < 0.25:
             prog += [stat_query(rng, 0, q) for q in rng.sample(["integral", "mean", "min", "max"], 2)]
-        lay_pts = [None, F(0), F(1), F(2), F(4)] if base[0] in ([F(0), F(4)], []) else [None] + base[0]
+        lay_pts = [None, F(0), F(1), F(2), F(4)] if base[0] in ([F(0), F(4)], [], [F(0), F(1), F(2), F(4)]) else [None] + base[0]
         undo = None
         for _ in range(rng.randint(2, 6)):
             r = rng.random()
@@ -796,7 +806,7 @@ def gen_C14(rng, tier):
             if rng.random() < 0.5:
                 prog.append(stat_query(rng, 0, rng.choice(STAT_Q)))
         prog += [stat_query(rng, 0, q) for q in rng.sample(STAT_Q, 4)] + [C.read(0, "frame")]
-        cases.append(mk(f"C14/{k}", prog, flav(rng, False), mode="tol", tags=["history"]))
+        cases.append(mk(f"C14/{k}", prog, flav(rng, has_nan(base)), mode="tol", tags=["history"]))
     return cases
 
 
